@@ -582,7 +582,69 @@ def rule_T4(ck):
                                      construct=f"imm {width} {unsigned} bounds", expected=f"error outside {exp_lo}..{exp_hi}", found=f"{cell} accepted")
 
 
+# --------------------------------------------------------------------------- T5 hoisting of 'a+b(r)'
+def hoist_cases(repo):
+    """Abstractly execute RegisterModeOperandStub.encode on index operands whose index is an expression the parser nests
+    around the call ('a+b(r)' is parsed as a+(b(r))). -> [(text, expected value, result path, tokens)]"""
+    A, B, C = (sym.var(n, "int") for n in "ABC")
+    cases = [
+        ("a+b(R)", lambda sh, a, b, c, r: sh.bin("add", a, sh.bin("call", b, r)), sym.add(A, B), 0o60, "b"),
+        ("a-b(R)", lambda sh, a, b, c, r: sh.bin("sub", a, sh.bin("call", b, r)), sym.sub(A, B), 0o60, "b"),
+        ("a+b*c(R)", lambda sh, a, b, c, r: sh.bin("add", a, sh.bin("mul", b, sh.bin("call", c, r))), sym.add(A, sym.mul(B, C)), 0o60, "c"),
+        ("a*b+c(R)", lambda sh, a, b, c, r: sh.bin("add", sh.bin("mul", a, b), sh.bin("call", c, r)), sym.add(sym.mul(A, B), C), 0o60, "c"),
+        ("a-b-c(R)", lambda sh, a, b, c, r: sh.bin("sub", sh.bin("sub", a, b), sh.bin("call", c, r)), sym.sub(sym.sub(A, B), C), 0o60, "c"),
+        ("-a(R)", lambda sh, a, b, c, r: sh.un("neg", sh.bin("call", a, r)), sym.neg(A), 0o60, "a"),
+        ("@a+b(R)", lambda sh, a, b, c, r: sh.un("deferred", sh.bin("add", a, sh.bin("call", b, r))), sym.add(A, B), 0o70, "b"),
+        ("a(R)", lambda sh, a, b, c, r: sh.bin("call", a, r), A, 0o60, "a"),
+    ]
+    out = []
+    for text, build, want, mode, last in cases:
+        seen = []
+
+        def gai(I_, fn, args, kw):
+            names = ["state", "what", "token", "arg_token", "bitness", "unsigned", "default"]
+            b = dict(zip(names, args))
+            b.update(kw)
+            val = I_.call_method(b["arg_token"], "resolve", [b["state"]])
+            seen.append((b["token"], b["arg_token"], b.get("bitness"), b.get("unsigned")))
+            return sym.op("get_as_int", val, b.get("bitness"), b.get("unsigned"), b.get("default"))
+        I = eager_interp(repo, extra={"metacommand_impl::get_as_int": gai})
+        toks = {}
+
+        def thunk():
+            del seen[:]
+            sh = Shapes(I)
+            a, b, c = sh.xexpr(A, "a"), sh.xexpr(B, "b"), sh.xexpr(C, "c")
+            r = sh.symbol("r2")
+            operand = build(sh, a, b, c, r)
+            toks.update(a=a, b=b, c=c, operand=operand)
+            stub = I.instantiate(I.module_get("insns", "RegisterModeOperandStub"), ["d", [5, 4, 3, 2, 1, 0]], {})
+            res = I.call_method(stub, "encode", [operand, STATE])
+            return res, list(seen)
+        paths = I.explore(thunk)
+        out.append((text, want, mode, last, paths, dict(toks)))
+    return out
+
+
+def rule_T5(ck):
+    where = "insns::RegisterModeOperandStub.encode.hoist" if ck.repo.has_func("insns::RegisterModeOperandStub.encode.hoist") else "insns::RegisterModeOperandStub.encode"
+    for text, want, mode, last, paths, toks in hoist_cases(ck.repo):
+        rets = [p for p in paths if p.kind == "return" and not p.reported()]
+        ck.instance(("hoist", text), {"operand": text, "result": repr(rets[0].value[0]) if rets else repr(paths)}, fn=where)
+        if len(rets) != 1 or len(paths) != 1:
+            ck.violation(where, f"index operand '{text}' does not encode on one clean path: {[(p.kind, [e[2] for e in p.reported()]) for p in paths]}", construct=f"hoist {text}")
+            continue
+        (m, ext), seen = rets[0].value
+        exp_ext = sym.op("sized", 2, sym.pack("<H", sym.op("get_as_int", want, 16, False, None)))
+        if m != (mode | 2):
+            ck.violation(where, f"index operand '{text}' gets mode {m!r}, expected {mode | 2:o}", construct=f"hoist {text} mode")
+        if ext != exp_ext:
+            ck.violation(where, f"index operand '{text}': the index word is {ext!r}, expected {exp_ext!r} (the register binds to the whole expression: '{text.replace('(R)', '')}' is the index)",
+                         construct=f"hoist {text} value", expected=repr(exp_ext), found=repr(ext))
+
+
 def run(ck):
+    ck.run_rule("C01.T5", "index operands written 'a+b(r)': the register is hoisted out and the whole expression is the index", 8, rule_T5)
     ck.run_rule("C01.T1", "opcode table == ISA reference (fold of insns.init over instruction_opcodes)", 252, rule_T1)
     ck.run_rule("C01.S", "synonyms encode like their targets", 30, rule_S)
     ck.run_rule("C01.T2", "addressing-mode decision list on canonical operand shapes", 40, rule_T2)
